@@ -164,7 +164,7 @@ Definition call_shape_ok (sg : signature val) (c : call val) : bool :=
 Definition domain (sg : signature val) (dc : deco val) (env : wenv) (c : call val) : Z :=
   if s_varpos sg then (if spec_star_domain val sg dc c && negb (flask_clause dc env) then 3 else 0)    (* 3: *args, principal use *)
   else if negb (decl_wellformed val sg dc && call_shape_ok sg c) || flask_clause dc env then 0
-  else if names_fit val sg dc c then 2
+  else if names_fit val sg dc (if d_ignore_input dc then {| c_args := []; c_kwargs := [] |} else c) then 2   (* ignore_input: no name of the caller reaches the function *)
   else match demanded_raises val is_none sg dc c with _ :: _ => 2 | [] => 1 end.
 
 Definition eval_case (ps : list (param val)) (sps : list (sigparam val)) (varkw varpos : bool)
